@@ -79,7 +79,8 @@ def worker(task: Tuple[Any, ...]) -> Stats:
     tree = Tree(FIRST, SYMBOLS, steps, EXTRA)
     st = Stats()
     for hist in tree.level(root, depth):
-        specs = H.materialize(hist, row_order=row_order)
+        # dev == "dust": every amount x 1e-6, so that transfer fees are worth a fraction of a cent - they leave the account all the same
+        specs = H.materialize(hist, row_order=row_order, scale="1/1000000" if _dev == "dust" else 1)
         if specs is None:
             continue
         verdict, _acct, _dip = MA.overdraft_verdict(specs)
@@ -129,7 +130,16 @@ def report_histories(tier: str) -> List[History]:
                 touched = len({a for s in specs for a, _k, _v in MA.flows(s)})
                 if depth < 3 or touched >= 3 or tier == "thorough":
                     out.append(hist)
-    return out
+    return out + FEE_FILLS
+
+
+# purchases whose fee was paid in crypto (the parser turns each fee into an artificial disposal): two of them at the same instant,
+# rows without unique id (e.g. two partial fills of one order)
+FEE_FILLS: List[History] = [
+    ((H.B(1, 2, fee="1/8"), "="), (H.B(1, 2, fee="1/4"), "="), (H.S(1), "d")),
+    ((H.B(2, 1, acct=1, fee="1/8"), "="), (H.B(1, 2, acct=1, fee="1/8"), "="), (H.M(1, 0, src=1, dst=0), "d"), (H.B(1, 1, fee="1/2"), "=")),
+    ((H.B(1, 2, fee="1/8"), "="), (H.B(1, 2, acct=2, fee="1/8"), "="), (H.B(3, 1, fee="1/8"), "d"), (H.B(3, 1, fee="1/16"), "=")),
+]
 
 
 def report_worker(chunk: List[History]) -> Stats:
@@ -139,7 +149,8 @@ def report_worker(chunk: List[History]) -> Stats:
 
     st = Stats()
     for hist in chunk:
-        specs = H.materialize(hist, uid=True)
+        fills = hist in FEE_FILLS
+        specs = H.materialize(hist, uid=not fills)
         if specs is None:
             continue
         matrix, specs2 = D.to_sheet(specs, "B1")
@@ -196,8 +207,10 @@ def report_init() -> None:
 def plan(tier: str) -> List[Dict[str, Any]]:
     if tier == "quick":
         return [{"name": "3 accounts", "schedules": [((1970, "fifo"),), ((1970, "hifo"),)], "steps": STEPS, "depth": 3, "dev": 0, "group": 1},
-                {"name": "3 accounts, lifo (depth 2)", "schedules": [((1970, "lifo"),)], "steps": STEPS, "depth": 2, "dev": 0, "group": 1}]
+                {"name": "3 accounts, lifo (depth 2)", "schedules": [((1970, "lifo"),)], "steps": STEPS, "depth": 2, "dev": 0, "group": 1},
+                {"name": "3 accounts, dust-sized amounts (x 1e-6)", "schedules": [((1970, "fifo"),)], "steps": ("d",), "depth": 3, "dev": "dust", "group": 1}]
     return [{"name": "3 accounts", "schedules": [((1970, "fifo"),), ((1970, "hifo"),)], "steps": STEPS, "depth": 3, "dev": 0, "group": 1},
+            {"name": "3 accounts, dust-sized amounts (x 1e-6)", "schedules": [((1970, "fifo"),), ((1970, "hifo"),)], "steps": STEPS, "depth": 3, "dev": "dust", "group": 1},
             {"name": "3 accounts, depth 4", "schedules": [((1970, "fifo"),)], "steps": STEPS, "depth": 4, "dev": 0, "group": 1, "from_depth": 4}]
 
 
